@@ -1,3 +1,5 @@
+//go:build !no_c12
+
 package props
 
 import (
